@@ -8,7 +8,8 @@ harness/stubs and bound with `TestDatabase().bind(provider, ':memory:')`, which 
   (2) builder text: the text PGSQLBuilder / MySQLBuilder / OraBuilder / SQLiteBuilder emit for every condition AST compared with the
       Lean pretty-printer `Model.Q.renderText` (quoting, `%%` doubling, placeholders, casts, CONCAT, boolean literals, CASE merging,
       parentheses);
-  (3) property oracle on the modelled backends: the REAL ASTs of the three dialects evaluated by `Model.Q.eval` on random rows: the
+  (3) property oracle on the modelled backends (the witness of the defect repaired in a3f48ae, `not (e.nb if e.b else e.nb)`, is
+      replayed first): the REAL ASTs of the three dialects evaluated by `Model.Q.eval` on random rows: the
       selected rows must agree between dialects and with the Python reading; a type error of the modelled PostgreSQL is counted.
 """
 import json
